@@ -15,6 +15,7 @@ import (
 func init() { Registry["C02"] = c02 }
 
 func c02(c *Ctx) {
+	c02changeDetectComplete(c)
 	r := c.R
 	r.Decides("the division is computed in integers only (no floating-point value anywhere in the call tree) and is a pure function of its inputs (the call tree uses only math/bits, sort, builtins and in-package helpers; no global state)")
 	r.Decides("the remainder sort ends in a comparison on the quota name (total order: independent of map iteration order); every +1 of the residual distribution is paired with a -1 of the residual under residual > 0")
